@@ -1,18 +1,35 @@
-//! C04 correspondence harness: single-threaded programs on the real `compio_executor::Executor`
-//! with instrumented futures / outputs / wakers (see lean/Drivers/C04.lean for the operations).
+//! C04 correspondence harness: programs on the real `compio_executor::Executor` with instrumented
+//! futures / outputs / wakers (see lean/Drivers/C04.lean for the operations). Local operations run on
+//! the executor ("main") thread; `r…` operations and the script letter `W` use a handle / waker on a
+//! helper thread, strictly sequentially (the main thread waits for the helper before it goes on), so
+//! every program is deterministic.
 
 use std::{
-    cell::RefCell,
     collections::{BTreeSet, HashMap, VecDeque},
     future::Future,
+    panic::{AssertUnwindSafe, catch_unwind},
     pin::Pin,
-    rc::Rc,
-    sync::{Arc, Mutex},
+    sync::{
+        Arc, Mutex, MutexGuard,
+        atomic::{AtomicBool, Ordering},
+        mpsc::{Receiver, Sender, channel},
+    },
     task::{Context, Poll, Wake, Waker},
+    thread::{self, ThreadId},
+    time::Duration,
 };
 
 use compio_executor::{Executor, ExecutorConfig, JoinError, JoinHandle};
 use hx_common::*;
+
+/// safety timeout for anything that waits for a helper thread
+const TIMEOUT: Duration = Duration::from_secs(10);
+/// set at the first stall of a run: the run has failed anyway, later waits use a short timeout
+static STALLED_ONCE: AtomicBool = AtomicBool::new(false);
+
+fn timeout() -> Duration {
+    if STALLED_ONCE.load(Ordering::SeqCst) { Duration::from_secs(1) } else { TIMEOUT }
+}
 
 #[derive(Default)]
 struct Counters {
@@ -28,14 +45,92 @@ struct Counters {
     polled_after_end: Vec<u32>,
     /// what the future did at its last poll (`p` also stands for an exhausted script)
     last: Vec<Option<char>>,
-    /// a kept waker clone was woken (task live, executor alive) and the task has not been polled since
+    /// a kept waker clone was woken on the main thread (task live, executor alive), task not polled since
     wake_pending: Vec<bool>,
+    /// a waker of the task was woken on a helper thread (rwake, rwakeb, `W`; task live, executor alive),
+    /// task not polled since
+    remote_owed: Vec<bool>,
+    /// handle dropped / cancelled (locally or remotely) before completion while the executor was alive
+    reap_expected: Vec<Option<String>>,
     script_len: Vec<usize>,
     /// `C04:future-dropped-live` already reported
     live_drop_reported: Vec<bool>,
+    /// the executor's thread
+    home: Option<ThreadId>,
+    /// protocol budget: scheduling operations admitted since the start of the current tick
+    outstanding: usize,
+    /// = sync_queue_size
+    cap: usize,
+    w_admitted: u32,
+    w_refused: u32,
+    /// monitor failures detected inside a poll / drop (reported by `run_case` after the line)
+    fails: Vec<(String, String)>,
 }
 
-type Sh = Rc<RefCell<Counters>>;
+type Sh = Arc<Mutex<Counters>>;
+
+fn lk(sh: &Sh) -> MutexGuard<'_, Counters> {
+    sh.lock().unwrap_or_else(|e| e.into_inner())
+}
+
+// ---- helper threads -----------------------------------------------------------------------------
+// Two long-lived helper threads (0: `r…` operations, 1: the wake inside a `W` poll, which can happen
+// while helper 0 is blocked in a `rwakeb`). A helper that stalls is abandoned and replaced.
+
+type Job = Box<dyn FnOnce() + Send + 'static>;
+static WORKERS: Mutex<[Option<Sender<Job>>; 2]> = Mutex::new([None, None]);
+
+fn submit(which: usize, job: Job) {
+    let mut ws = WORKERS.lock().unwrap_or_else(|e| e.into_inner());
+    let mut job = Some(job);
+    for _ in 0..2 {
+        if ws[which].is_none() {
+            let (tx, rx) = channel::<Job>();
+            thread::spawn(move || {
+                for j in rx {
+                    j()
+                }
+            });
+            ws[which] = Some(tx);
+        }
+        match ws[which].as_ref().unwrap().send(job.take().unwrap()) {
+            Ok(()) => return,
+            Err(e) => {
+                job = Some(e.0);
+                ws[which] = None;
+            }
+        }
+    }
+    panic!("cannot start a helper thread");
+}
+
+fn abandon(which: usize) {
+    WORKERS.lock().unwrap_or_else(|e| e.into_inner())[which] = None;
+}
+
+fn run_remote<T: Send + 'static>(which: usize, f: impl FnOnce() -> T + Send + 'static) -> Receiver<thread::Result<T>> {
+    let (tx, rx) = channel();
+    submit(
+        which,
+        Box::new(move || {
+            let r = catch_unwind(AssertUnwindSafe(f));
+            let _ = tx.send(r);
+        }),
+    );
+    rx
+}
+
+fn panic_msg(e: &Box<dyn std::any::Any + Send>) -> String {
+    if let Some(s) = e.downcast_ref::<&str>() {
+        s.to_string()
+    } else if let Some(s) = e.downcast_ref::<String>() {
+        s.clone()
+    } else {
+        "panic".into()
+    }
+}
+
+// ---- instrumented output / future / wakers ------------------------------------------------------
 
 struct Out {
     id: usize,
@@ -46,7 +141,7 @@ struct Out {
 impl Drop for Out {
     fn drop(&mut self) {
         if !self.taken {
-            self.sh.borrow_mut().res_drops[self.id] += 1;
+            lk(&self.sh).res_drops[self.id] += 1;
         }
     }
 }
@@ -64,12 +159,16 @@ impl Future for Scripted {
         let id = self.id;
         POLL_LOG.with(|l| l.borrow_mut().push(id));
         {
-            let mut c = self.sh.borrow_mut();
+            let mut c = lk(&self.sh);
             c.polls[id] += 1;
+            if c.home != Some(thread::current().id()) {
+                c.fails.push(("C04:future-wrong-thread".into(), format!("task {id}: future polled on a thread other than the executor's")));
+            }
             if c.cancelled[id] || c.completed[id] {
                 c.polled_after_end[id] += 1;
             }
             c.wake_pending[id] = false;
+            c.remote_owed[id] = false;
             c.last[id] = Some(match self.script.front() {
                 None => 'p',
                 Some(l) => *l,
@@ -83,15 +182,47 @@ impl Future for Scripted {
             }
             Some('c') => {
                 let w = cx.waker().clone();
-                self.sh.borrow_mut().wakers[id].push(w);
+                lk(&self.sh).wakers[id].push(w);
+                Poll::Pending
+            }
+            Some('W') => {
+                // wake from another thread while this poll is in progress (if the protocol budget admits it)
+                let admitted = {
+                    let mut c = lk(&self.sh);
+                    if c.outstanding < c.cap {
+                        c.outstanding += 1;
+                        c.w_admitted += 1;
+                        c.remote_owed[id] = true;
+                        true
+                    } else {
+                        c.w_refused += 1;
+                        false
+                    }
+                };
+                if admitted {
+                    let w = cx.waker().clone();
+                    let rx = run_remote(1, move || w.wake());
+                    match rx.recv_timeout(timeout()) {
+                        Ok(Ok(())) => {}
+                        Ok(Err(e)) => lk(&self.sh).fails.push(("C04:panic".into(), format!("task {id}: remote wake inside a poll panicked: {}", panic_msg(&e)))),
+                        Err(_) => {
+                            abandon(1);
+                            STALLED_ONCE.store(true, Ordering::SeqCst);
+                            lk(&self.sh).fails.push((
+                                "C04:remote-op-stalled".into(),
+                                format!("task {id}: a waker clone woken on another thread during the poll did not return in time"),
+                            ));
+                        }
+                    }
+                }
                 Poll::Pending
             }
             Some('r') => {
-                self.sh.borrow_mut().completed[id] = true;
+                lk(&self.sh).completed[id] = true;
                 Poll::Ready(Out { id, sh: self.sh.clone(), taken: false })
             }
             Some('x') => {
-                self.sh.borrow_mut().completed[id] = true;
+                lk(&self.sh).completed[id] = true;
                 let payload = Out { id, sh: self.sh.clone(), taken: false };
                 std::panic::panic_any(SendOut(payload))
             }
@@ -102,13 +233,17 @@ impl Future for Scripted {
 
 impl Drop for Scripted {
     fn drop(&mut self) {
-        self.sh.borrow_mut().fut_drops[self.id] += 1;
+        let mut c = lk(&self.sh);
+        c.fut_drops[self.id] += 1;
+        if c.home != Some(thread::current().id()) {
+            let id = self.id;
+            c.fails.push(("C04:future-wrong-thread".into(), format!("task {id}: future dropped on a thread other than the executor's")));
+        }
     }
 }
 
-/// panic payloads must be `Send`; everything here stays on one thread
+/// panic payload of an `x` outcome (`Out` is `Send`: all counters are behind `Arc<Mutex>`)
 struct SendOut(Out);
-unsafe impl Send for SendOut {}
 
 struct CountWaker {
     id: usize,
@@ -118,6 +253,38 @@ struct CountWaker {
 impl Wake for CountWaker {
     fn wake(self: Arc<Self>) {
         self.log.lock().unwrap().push(self.id);
+    }
+}
+
+enum Ev {
+    Notify,
+    /// the helper of a `rwakeb` has finished (`true`: it panicked)
+    Done(bool),
+}
+
+/// `ExecutorConfig::waker`: stands in for the driver waker of a runtime. On the executor thread: nothing.
+/// On a helper thread: nothing, unless armed by `rwakeb`; then (once per arming) it hands control to the main
+/// thread, which runs one tick, and waits for it.
+struct NotifyWaker {
+    main: ThreadId,
+    armed: AtomicBool,
+    ev: Mutex<Sender<Ev>>,
+    ack: Mutex<Receiver<()>>,
+}
+
+impl Wake for NotifyWaker {
+    fn wake(self: Arc<Self>) {
+        self.wake_by_ref()
+    }
+
+    fn wake_by_ref(self: &Arc<Self>) {
+        if thread::current().id() == self.main {
+            return;
+        }
+        if self.armed.swap(false, Ordering::SeqCst) {
+            let _ = self.ev.lock().unwrap().send(Ev::Notify);
+            let _ = self.ack.lock().unwrap().recv_timeout(timeout());
+        }
     }
 }
 
@@ -132,20 +299,38 @@ struct World {
     parked: Vec<Option<(usize, usize)>>,
     /// per-case tags (reported once per case)
     case_tags: BTreeSet<String>,
+    notify: Arc<NotifyWaker>,
+    ev_rx: Receiver<Ev>,
+    ev_tx: Sender<Ev>,
+    ack_tx: Sender<()>,
 }
 
 impl World {
-    fn new(max_interval: u32) -> Self {
-        let cfg = ExecutorConfig { max_interval, ..Default::default() };
+    fn new(max_interval: u32, q: usize) -> Self {
+        let q = q.max(1);
+        let (ev_tx, ev_rx) = channel();
+        let (ack_tx, ack_rx) = channel();
+        let notify = Arc::new(NotifyWaker {
+            main: thread::current().id(),
+            armed: AtomicBool::new(false),
+            ev: Mutex::new(ev_tx.clone()),
+            ack: Mutex::new(ack_rx),
+        });
+        let cfg = ExecutorConfig { max_interval, sync_queue_size: q, waker: Some(Waker::from(notify.clone())), ..Default::default() };
+        let sh: Sh = Arc::new(Mutex::new(Counters { home: Some(thread::current().id()), cap: q, ..Default::default() }));
         World {
             exe: Some(Executor::with_config(cfg)),
             max_interval,
-            sh: Rc::new(RefCell::new(Counters::default())),
+            sh,
             handles: vec![],
             jw: HashMap::new(),
             wake_log: Arc::new(Mutex::new(vec![])),
             parked: vec![],
             case_tags: BTreeSet::new(),
+            notify,
+            ev_rx,
+            ev_tx,
+            ack_tx,
         }
     }
 
@@ -156,7 +341,7 @@ impl World {
 
     /// phase of task `id` as seen by the instrumentation only (for tags)
     fn phase(&self, id: usize) -> &'static str {
-        let c = self.sh.borrow();
+        let c = lk(&self.sh);
         if c.completed[id] {
             "completed"
         } else if self.exe.is_none() {
@@ -167,6 +352,74 @@ impl World {
             "unpolled"
         } else {
             "pending"
+        }
+    }
+
+    /// protocol budget (not a verdict): may one more scheduling operation be started before the next tick?
+    fn admit(&self) -> bool {
+        let mut c = lk(&self.sh);
+        if c.outstanding < c.cap {
+            c.outstanding += 1;
+            true
+        } else {
+            false
+        }
+    }
+
+    /// one `Executor::tick` with the poll log; `outstanding` is the budget value at its start
+    fn tick(&mut self, outstanding: usize, tags: bool, ex: &mut Exec) -> Option<(Vec<usize>, bool)> {
+        let exe = self.exe.as_ref()?;
+        lk(&self.sh).outstanding = outstanding;
+        POLL_LOG.with(|l| l.borrow_mut().clear());
+        let hot = exe.tick();
+        let log = POLL_LOG.with(|l| l.borrow().clone());
+        self.check_tick(&log, ex);
+        if !tags {
+            return Some((log, hot));
+        }
+        // tags (implementation outputs only)
+        let mut seen = vec![];
+        let mut repoll = false;
+        for i in &log {
+            if seen.contains(i) {
+                repoll = true;
+            }
+            seen.push(*i);
+        }
+        if repoll {
+            ex.tag("tick:repoll-same-tick");
+            self.case_tags.insert("case:repoll-same-tick".into());
+        }
+        if log.len() == self.max_interval as usize && hot {
+            ex.tag("tick:budget-hit-hot-left");
+        }
+        ex.tag(format!("tick:npolls={}", if log.len() >= 4 { "4+".to_string() } else { log.len().to_string() }));
+        Some((log, hot))
+    }
+
+    /// Wait for a helper-thread operation. It must complete without the executor's help; if it does not
+    /// (`C04:remote-op-stalled`), tick a few times to unblock it so that the harness can go on.
+    fn join_remote<T>(&mut self, rx: Receiver<thread::Result<T>>, what: &str, ex: &mut Exec) -> Option<T> {
+        match rx.recv_timeout(timeout()) {
+            Ok(Ok(v)) => Some(v),
+            Ok(Err(e)) => {
+                ex.fail("C04:panic", format!("{what}: helper thread panicked: {}", panic_msg(&e)));
+                None
+            }
+            Err(_) => {
+                STALLED_ONCE.store(true, Ordering::SeqCst);
+                ex.fail("C04:remote-op-stalled", format!("`{what}` on another thread did not return in time (the executor thread was not ticking)"));
+                for _ in 0..4 {
+                    if let Some(exe) = &self.exe {
+                        let _ = catch(|| exe.tick());
+                    }
+                    if let Ok(r) = rx.recv_timeout(Duration::from_secs(1)) {
+                        return r.ok();
+                    }
+                }
+                abandon(0);
+                None
+            }
         }
     }
 
@@ -184,7 +437,7 @@ impl World {
     /// Monitor: a handle whose last poll returned Pending with waker k, and whose task has completed since,
     /// has been woken through k after that poll.
     fn check_joins(&self, when: &str, ex: &mut Exec) {
-        let c = self.sh.borrow();
+        let c = lk(&self.sh);
         let log = self.wake_log.lock().unwrap();
         for (id, p) in self.parked.iter().enumerate() {
             if let Some((k, at)) = p {
@@ -200,8 +453,9 @@ impl World {
 
     /// Monitor: the future of a task is dropped only after the task completed or was cancelled
     /// (handle dropped / cancel called / executor dropped); in particular detaching does not drop it.
+    /// Also reports what the instrumented futures noticed themselves (wrong thread, stalled `W` wake).
     fn check_live_drops(&self, after: &str, ex: &mut Exec) {
-        let mut c = self.sh.borrow_mut();
+        let mut c = lk(&self.sh);
         for id in 0..c.polls.len() {
             if c.fut_drops[id] > 0 && !c.completed[id] && !c.cancelled[id] && !c.live_drop_reported[id] {
                 c.live_drop_reported[id] = true;
@@ -211,19 +465,40 @@ impl World {
                 );
             }
         }
+        drop(c);
+        self.flush_fails(after, ex);
     }
+
+    /// report what the instrumented futures noticed themselves (wrong thread, stalled `W` wake)
+    fn flush_fails(&self, after: &str, ex: &mut Exec) {
+        for (sig, detail) in std::mem::take(&mut lk(&self.sh).fails) {
+            ex.fail(sig, format!("{detail} (during `{after}`)"));
+        }
+    }
+
+    /// some live task is owed a poll because one of its wakers was woken on another thread
+    fn remote_owed(&self) -> bool {
+        let c = lk(&self.sh);
+        (0..c.polls.len()).any(|id| c.remote_owed[id] && !c.completed[id] && !c.cancelled[id])
+    }
+}
+
+fn show_tick(log: &[usize], hot: bool) -> String {
+    let s: Vec<String> = log.iter().map(|i| i.to_string()).collect();
+    format!("polled {} hot={}", if s.is_empty() { "-".into() } else { s.join(",") }, hot as u8)
 }
 
 fn exec_line(w: &mut World, line: &str, ex: &mut Exec) -> String {
     let t: Vec<&str> = line.split_whitespace().collect();
     let idarg = |i: usize| -> usize { t[i].parse().unwrap() };
+    let remote = t[0].starts_with('r');
     match t[0] {
         "spawn" => {
             let Some(exe) = &w.exe else { return "invalid".into() };
             let id = w.handles.len();
             let script: VecDeque<char> = if t[1] == "-" { VecDeque::new() } else { t[1].chars().collect() };
             {
-                let mut c = w.sh.borrow_mut();
+                let mut c = lk(&w.sh);
                 c.polls.push(0);
                 c.fut_drops.push(0);
                 c.res_taken.push(0);
@@ -234,6 +509,8 @@ fn exec_line(w: &mut World, line: &str, ex: &mut Exec) -> String {
                 c.polled_after_end.push(0);
                 c.last.push(None);
                 c.wake_pending.push(false);
+                c.remote_owed.push(false);
+                c.reap_expected.push(None);
                 c.script_len.push(script.len());
                 c.live_drop_reported.push(false);
             }
@@ -242,50 +519,50 @@ fn exec_line(w: &mut World, line: &str, ex: &mut Exec) -> String {
             w.parked.push(None);
             format!("id {id}")
         }
-        "tick" => {
-            let Some(exe) = &w.exe else { return "invalid".into() };
-            POLL_LOG.with(|l| l.borrow_mut().clear());
-            let hot = exe.tick();
-            let log = POLL_LOG.with(|l| l.borrow().clone());
-            w.check_tick(&log, ex);
-            // tags (implementation outputs only)
-            let mut seen = vec![];
-            let mut repoll = false;
-            for i in &log {
-                if seen.contains(i) {
-                    repoll = true;
-                }
-                seen.push(*i);
-            }
-            if repoll {
-                ex.tag("tick:repoll-same-tick");
-                w.case_tags.insert("case:repoll-same-tick".into());
-            }
-            if log.len() == w.max_interval as usize && hot {
-                ex.tag("tick:budget-hit-hot-left");
-            }
-            ex.tag(format!("tick:npolls={}", if log.len() >= 4 { "4+".to_string() } else { log.len().to_string() }));
-            let s: Vec<String> = log.iter().map(|i| i.to_string()).collect();
-            format!("polled {} hot={}", if s.is_empty() { "-".into() } else { s.join(",") }, hot as u8)
-        }
-        "hpoll" => {
+        "tick" => match w.tick(0, true, ex) {
+            None => "invalid".into(),
+            Some((log, hot)) => show_tick(&log, hot),
+        },
+        "hpoll" | "rhpoll" => {
             let (id, wk) = (idarg(1), idarg(2));
             if id >= w.handles.len() || w.handles[id].is_none() {
                 return "invalid".into();
             }
-            let was_completed = w.sh.borrow().completed[id];
+            let was_completed = lk(&w.sh).completed[id];
             let waker = w.waker(wk);
-            let mut cx = Context::from_waker(&waker);
             let mut h = w.handles[id].take().unwrap();
-            let r = Pin::new(&mut h).poll(&mut cx);
+            let r = if remote {
+                let rx = run_remote(0, move || {
+                    let mut cx = Context::from_waker(&waker);
+                    let r = Pin::new(&mut h).poll(&mut cx);
+                    (h, r)
+                });
+                match w.join_remote(rx, line, ex) {
+                    Some((h2, r)) => {
+                        h = h2;
+                        r
+                    }
+                    None => {
+                        w.parked[id] = None;
+                        return "stalled".into();
+                    }
+                }
+            } else {
+                let mut cx = Context::from_waker(&waker);
+                Pin::new(&mut h).poll(&mut cx)
+            };
             match r {
                 Poll::Pending => {
                     w.handles[id] = Some(h);
-                    ex.tag(match w.parked[id] {
-                        None => "hpoll:pending:first",
-                        Some((k, _)) if k == wk => "hpoll:pending:same-waker",
-                        Some(_) => "hpoll:pending:other-waker",
-                    });
+                    ex.tag(format!(
+                        "{}:pending:{}",
+                        t[0],
+                        match w.parked[id] {
+                            None => "first",
+                            Some((k, _)) if k == wk => "same-waker",
+                            Some(_) => "other-waker",
+                        }
+                    ));
                     let at = w.wake_log.lock().unwrap().len();
                     w.parked[id] = Some((wk, at));
                     "pending".into()
@@ -296,7 +573,7 @@ fn exec_line(w: &mut World, line: &str, ex: &mut Exec) -> String {
                     match res {
                         Ok(mut out) => {
                             out.taken = true;
-                            w.sh.borrow_mut().res_taken[id] += 1;
+                            lk(&w.sh).res_taken[id] += 1;
                             if out.id != id {
                                 ex.fail("C04:wrong-output", format!("handle {id} received the output of task {}", out.id));
                             }
@@ -306,7 +583,7 @@ fn exec_line(w: &mut World, line: &str, ex: &mut Exec) -> String {
                             match p.downcast::<SendOut>() {
                                 Ok(mut so) => {
                                     so.0.taken = true;
-                                    w.sh.borrow_mut().res_taken[id] += 1;
+                                    lk(&w.sh).res_taken[id] += 1;
                                     if so.0.id != id {
                                         ex.fail("C04:wrong-output", format!("handle {id} received the panic of task {}", so.0.id));
                                     }
@@ -325,60 +602,76 @@ fn exec_line(w: &mut World, line: &str, ex: &mut Exec) -> String {
                                     format!("task {id} had completed, its handle was polled and got Cancelled"),
                                 );
                             }
-                            ex.tag(format!("hpoll:cancelled@{}", w.phase(id)));
+                            ex.tag(format!("{}:cancelled@{}", t[0], w.phase(id)));
                             "cancelled".into()
                         }
                     }
                 }
             }
         }
-        "hdrop" | "hdetach" | "hcancel" => {
+        "hdrop" | "hdetach" | "hcancel" | "rhdrop" | "rhcancel" => {
             let id = idarg(1);
             if id >= w.handles.len() || w.handles[id].is_none() {
                 return "invalid".into();
             }
+            if remote && !w.admit() {
+                ex.tag(format!("{}:full", t[0]));
+                return "full".into();
+            }
             ex.tag(format!("{}@{}{}", t[0], w.phase(id), if w.parked[id].is_some() { ",parked" } else { "" }));
-            match t[0] {
-                "hdrop" => {
-                    let done = w.sh.borrow().completed[id];
-                    if !done {
-                        w.sh.borrow_mut().cancelled[id] = true;
+            if t[0] != "hdetach" {
+                let mut c = lk(&w.sh);
+                if !c.completed[id] {
+                    if !c.cancelled[id] && w.exe.is_some() {
+                        c.reap_expected[id] = Some(t[0].to_string());
                     }
-                    drop(w.handles[id].take());
-                    w.parked[id] = None;
+                    c.cancelled[id] = true;
                 }
-                "hdetach" => {
-                    w.handles[id].take().unwrap().detach();
-                    w.parked[id] = None;
+            }
+            let h = w.handles[id].take().unwrap();
+            w.parked[id] = None;
+            match t[0] {
+                "hdrop" => drop(h),
+                "rhdrop" => {
+                    let rx = run_remote(0, move || drop(h));
+                    w.join_remote(rx, line, ex);
                 }
+                "hdetach" => h.detach(),
                 _ => {
                     // `JoinHandle::cancel(self)` is an async fn: `task.cancel(false)` then `self.await`;
                     // poll it once with a noop waker, it must be ready at once.
-                    let done = w.sh.borrow().completed[id];
-                    if !done {
-                        w.sh.borrow_mut().cancelled[id] = true;
-                    }
-                    let h = w.handles[id].take().unwrap();
-                    let mut fut = Box::pin(h.cancel());
-                    let waker = Waker::noop();
-                    let mut cx = Context::from_waker(waker);
-                    let r = fut.as_mut().poll(&mut cx);
-                    w.parked[id] = None;
+                    let cancel_once = move || {
+                        let mut fut = Box::pin(h.cancel());
+                        let mut cx = Context::from_waker(Waker::noop());
+                        match fut.as_mut().poll(&mut cx) {
+                            Poll::Ready(o) => Some(o),
+                            Poll::Pending => None,
+                        }
+                    };
+                    let r = if remote {
+                        let rx = run_remote(0, cancel_once);
+                        match w.join_remote(rx, line, ex) {
+                            Some(r) => r,
+                            None => return "stalled".into(),
+                        }
+                    } else {
+                        cancel_once()
+                    };
                     return match r {
-                        Poll::Ready(Some(mut out)) => {
+                        Some(Some(mut out)) => {
                             out.taken = true;
-                            w.sh.borrow_mut().res_taken[id] += 1;
+                            lk(&w.sh).res_taken[id] += 1;
                             if out.id != id {
                                 ex.fail("C04:wrong-output", format!("cancel of handle {id} returned the output of task {}", out.id));
                             }
-                            ex.tag("hcancel:some");
+                            ex.tag(format!("{}:some", t[0]));
                             "ok some".into()
                         }
-                        Poll::Ready(None) => {
-                            ex.tag("hcancel:none");
+                        Some(None) => {
+                            ex.tag(format!("{}:none", t[0]));
                             "ok none".into()
                         }
-                        Poll::Pending => {
+                        None => {
                             ex.fail("C04:cancel-pending", format!("JoinHandle::cancel of task {id} returned Pending"));
                             "ok pending".into()
                         }
@@ -387,40 +680,124 @@ fn exec_line(w: &mut World, line: &str, ex: &mut Exec) -> String {
             }
             "ok".into()
         }
-        "wake" => {
+        "wake" | "rwake" | "rwakeb" => {
             let id = idarg(1);
-            let c = w.sh.borrow();
+            let c = lk(&w.sh);
             if id >= c.wakers.len() || c.wakers[id].is_empty() {
                 return "invalid".into();
             }
+            drop(c);
+            if t[0] == "rwake" && !w.admit() {
+                ex.tag("rwake:full");
+                return "full".into();
+            }
+            let mut c = lk(&w.sh);
             let wk = c.wakers[id][0].clone();
             let live = !c.completed[id] && !c.cancelled[id] && w.exe.is_some();
-            drop(c);
-            ex.tag(format!("wake-ok@{}", w.phase(id)));
-            w.case_tags.insert("case:wake-ok".into());
             if live {
-                w.sh.borrow_mut().wake_pending[id] = true;
+                if remote { c.remote_owed[id] = true } else { c.wake_pending[id] = true }
             }
-            wk.wake(); // a fresh clone is consumed: net effect of wake_by_ref on the kept clone
+            drop(c);
+            ex.tag(format!("{}-ok@{}", t[0], w.phase(id)));
+            w.case_tags.insert(format!("case:{}-ok", t[0]));
+            match t[0] {
+                // a fresh clone is consumed: net effect of wake_by_ref on the kept clone
+                "wake" => wk.wake(),
+                "rwake" => {
+                    let rx = run_remote(0, move || wk.wake());
+                    w.join_remote(rx, line, ex);
+                }
+                _ => {
+                    // blocking remote wake: the executor's driver waker makes the main thread tick once
+                    w.notify.armed.store(true, Ordering::SeqCst);
+                    let ev = w.ev_tx.clone();
+                    submit(
+                        0,
+                        Box::new(move || {
+                            let r = catch_unwind(AssertUnwindSafe(move || wk.wake()));
+                            let _ = ev.send(Ev::Done(r.is_err()));
+                        }),
+                    );
+                    let mut ticked: Option<(Vec<usize>, bool)> = None;
+                    let mut stalled = false;
+                    loop {
+                        match w.ev_rx.recv_timeout(if stalled { Duration::from_secs(1) } else { timeout() }) {
+                            Ok(Ev::Notify) => {
+                                let r = w.tick(1, true, ex);
+                                if ticked.is_some() {
+                                    ex.fail("C04:harness", "second Notify during one rwakeb");
+                                }
+                                ticked = r;
+                                let _ = w.ack_tx.send(());
+                            }
+                            Ok(Ev::Done(panicked)) => {
+                                if panicked {
+                                    ex.fail("C04:panic", format!("{line}: helper thread panicked"));
+                                }
+                                break;
+                            }
+                            Err(_) if !stalled => {
+                                stalled = true;
+                                STALLED_ONCE.store(true, Ordering::SeqCst);
+                                ex.fail("C04:remote-op-stalled", format!("`{line}` on another thread did not return in time"));
+                            }
+                            Err(_) => {
+                                // try to unblock it; give up after a few ticks
+                                let mut freed = false;
+                                for _ in 0..4 {
+                                    if let Some(exe) = &w.exe {
+                                        let _ = catch(|| exe.tick());
+                                    }
+                                    if let Ok(Ev::Done(_)) = w.ev_rx.recv_timeout(Duration::from_secs(1)) {
+                                        freed = true;
+                                        break;
+                                    }
+                                }
+                                if !freed {
+                                    abandon(0);
+                                }
+                                break;
+                            }
+                        }
+                    }
+                    w.notify.armed.store(false, Ordering::SeqCst);
+                    return match ticked {
+                        None => {
+                            ex.tag("rwakeb:no-notify");
+                            "ok".into()
+                        }
+                        Some((log, hot)) => {
+                            ex.tag("rwakeb:notified");
+                            format!("ok {}", show_tick(&log, hot))
+                        }
+                    };
+                }
+            }
             "ok".into()
         }
-        "wdrop" => {
+        "wdrop" | "rwdrop" => {
             let id = idarg(1);
-            let mut c = w.sh.borrow_mut();
+            let mut c = lk(&w.sh);
             if id >= c.wakers.len() || c.wakers[id].is_empty() {
                 return "invalid".into();
             }
-            let wk = c.wakers[id].pop();
+            let wk = c.wakers[id].pop().unwrap();
             let last = c.wakers[id].is_empty();
             drop(c);
             ex.tag(format!(
-                "wdrop-ok@{}{}{}",
+                "{}-ok@{}{}{}",
+                t[0],
                 w.phase(id),
                 if last { ",last-clone" } else { "" },
                 if w.handles[id].is_none() { ",no-handle" } else { "" }
             ));
-            w.case_tags.insert("case:wdrop-ok".into());
-            drop(wk);
+            w.case_tags.insert(format!("case:{}-ok", t[0]));
+            if remote {
+                let rx = run_remote(0, move || drop(wk));
+                w.join_remote(rx, line, ex);
+            } else {
+                drop(wk);
+            }
             "ok".into()
         }
         "xdrop" => {
@@ -428,7 +805,7 @@ fn exec_line(w: &mut World, line: &str, ex: &mut Exec) -> String {
                 return "invalid".into();
             }
             {
-                let mut c = w.sh.borrow_mut();
+                let mut c = lk(&w.sh);
                 let mut live = 0;
                 for i in 0..c.cancelled.len() {
                     if !c.completed[i] {
@@ -452,7 +829,7 @@ fn exec_line(w: &mut World, line: &str, ex: &mut Exec) -> String {
         }
         "stat" => {
             let id = idarg(1);
-            let c = w.sh.borrow();
+            let c = lk(&w.sh);
             if id >= c.polls.len() {
                 return "invalid".into();
             }
@@ -475,7 +852,7 @@ fn exec_line(w: &mut World, line: &str, ex: &mut Exec) -> String {
 }
 
 thread_local! {
-    static POLL_LOG: RefCell<Vec<usize>> = const { RefCell::new(vec![]) };
+    static POLL_LOG: std::cell::RefCell<Vec<usize>> = const { std::cell::RefCell::new(vec![]) };
 }
 
 fn run_case(case: &Case) -> Exec {
@@ -485,7 +862,8 @@ fn run_case(case: &Case) -> Exec {
     for line in &case.lines {
         let t: Vec<&str> = line.split_whitespace().collect();
         if t[0] == "new" {
-            world = Some(World::new(t[1].parse().unwrap()));
+            let q = t.get(2).map(|q| q.parse().unwrap()).unwrap_or(64);
+            world = Some(World::new(t[1].parse().unwrap(), q));
             ex.out.push("ok".into());
             continue;
         }
@@ -506,37 +884,54 @@ fn run_case(case: &Case) -> Exec {
     if let Some(mut w) = world {
         // delivery: a handle parked with waker k whose task has completed must have been woken
         w.check_joins("at the end of the program", &mut ex);
-        // no starvation: keep ticking until the executor reports no hot task; then every live task has been
-        // polled, and polled again after its last self-wake / after the last wake of a kept waker clone.
-        // (Every scripted future goes quiet after finitely many polls, so this terminates.)
+        // no starvation: keep ticking until the executor reports no hot task and no remotely woken task is
+        // still owed a poll; then every live task has been polled, and polled again after its last self-wake /
+        // after the last wake of one of its wakers (on this or on another thread).
+        // (Every scripted future goes quiet after finitely many polls, so this terminates; a wake that the
+        // executor lost keeps the loop going until the bound and is reported.)
         if w.exe.is_some() && w.max_interval > 0 {
-            let bound: usize = w.sh.borrow().script_len.iter().map(|l| l + 2).sum::<usize>() + 8;
+            let bound: usize = lk(&w.sh).script_len.iter().map(|l| l + 2).sum::<usize>() + 8;
             let mut hot = true;
             let mut rounds = 0;
-            while hot && rounds < bound {
-                POLL_LOG.with(|l| l.borrow_mut().clear());
-                let exe = w.exe.as_ref().unwrap();
-                match catch(|| exe.tick()) {
-                    Ok(h) => hot = h,
+            while (hot || w.remote_owed()) && rounds < bound {
+                match catch(|| w.tick(0, false, &mut ex)) {
+                    Ok(Some((_, h))) => hot = h,
+                    Ok(None) => break,
                     Err(m) => {
                         ex.fail("C04:panic", format!("tick while draining: {m}"));
                         break;
                     }
                 }
-                let log = POLL_LOG.with(|l| l.borrow().clone());
-                w.check_tick(&log, &mut ex);
                 rounds += 1;
             }
             w.check_live_drops("draining ticks", &mut ex);
             if hot {
                 ex.fail("C04:hot-never-drains", format!("tick still reports hot tasks after {rounds} further ticks"));
-            } else {
-                let c = w.sh.borrow();
+            }
+            {
+                let c = lk(&w.sh);
                 for id in 0..c.polls.len() {
+                    // Monitor: dropping / cancelling the handle (on any thread) cancels the task: the executor
+                    // reaps it (drops its future, without polling it again) once it has run dry.
+                    if let Some(op) = &c.reap_expected[id] {
+                        if !hot && c.fut_drops[id] != 1 {
+                            ex.fail(
+                                "C04:remote-drop-not-reaped",
+                                format!("task {id}: handle gone by `{op}` before completion, executor ran dry ({rounds} ticks), future dropped {} times", c.fut_drops[id]),
+                            );
+                        }
+                    }
                     if c.completed[id] || c.cancelled[id] {
                         continue;
                     }
-                    if c.polls[id] == 0 {
+                    if c.remote_owed[id] {
+                        ex.fail(
+                            "C04:remote-wake-lost",
+                            format!("task {id}: a waker was woken on another thread, the task was not polled again in {rounds} further ticks"),
+                        );
+                    } else if hot {
+                        continue;
+                    } else if c.polls[id] == 0 {
                         ex.fail("C04:starved", format!("task {id} was spawned, never cancelled, and never polled although the executor ran dry"));
                     } else if c.last[id] == Some('s') {
                         ex.fail("C04:starved", format!("task {id} woke itself at its last poll and was not polled again although the executor ran dry"));
@@ -551,10 +946,11 @@ fn run_case(case: &Case) -> Exec {
         for h in w.handles.iter_mut() {
             drop(h.take());
         }
-        let wk: Vec<Vec<Waker>> = std::mem::take(&mut w.sh.borrow_mut().wakers);
+        let wk: Vec<Vec<Waker>> = std::mem::take(&mut lk(&w.sh).wakers);
         drop(wk);
         drop(w.exe.take());
-        let c = w.sh.borrow();
+        w.flush_fails("final drops", &mut ex);
+        let c = lk(&w.sh);
         for id in 0..c.polls.len() {
             if c.fut_drops[id] != 1 {
                 ex.fail("C04:future-drop-count", format!("task {id}: future dropped {} times", c.fut_drops[id]));
@@ -570,6 +966,12 @@ fn run_case(case: &Case) -> Exec {
                 ex.fail("C04:polled-after-end", format!("task {id} polled {} times after completion/cancellation", c.polled_after_end[id]));
             }
         }
+        if c.w_admitted > 0 {
+            w.case_tags.insert("case:W-admitted".into());
+        }
+        if c.w_refused > 0 {
+            w.case_tags.insert("case:W-refused".into());
+        }
         drop(c);
         // every join waker clone given to the executor has been released
         for (k, a) in &w.jw {
@@ -581,7 +983,7 @@ fn run_case(case: &Case) -> Exec {
             ex.tag(t);
         }
     }
-    // generator family = leading letters of the case name (corpus, rnd, hostile, waker, join, phase, hot, xa..xg)
+    // generator family = leading letters of the case name (corpus, rnd, hostile, waker, join, phase, hot, x…)
     let fam: String = case.name.chars().take_while(|c| c.is_ascii_alphabetic()).collect();
     ex.tag(format!("fam:{fam}"));
     ex.nontrivial = spawned && case.lines.len() >= 4;
@@ -623,6 +1025,11 @@ impl Prog {
         Prog { lines: vec![format!("new {n}")], alive: true, tasks: vec![] }
     }
 
+    /// with an explicit sync_queue_size
+    fn new_q(n: u32, q: u32) -> Self {
+        Prog { lines: vec![format!("new {n} {q}")], alive: true, tasks: vec![] }
+    }
+
     fn spawn(&mut self, s: &str) {
         self.lines.push(format!("spawn {s}"));
         if self.alive {
@@ -645,7 +1052,7 @@ impl Prog {
                 t.pc += 1;
             }
             match l {
-                Some('s') => {}
+                Some('s') | Some('W') => {}
                 Some('c') => {
                     t.wakers += 1;
                     t.runnable = false;
@@ -715,6 +1122,41 @@ impl Prog {
         self.lines.push(format!("stat {id}"));
     }
 
+    /// turn the line just pushed into its cross-thread variant (`hpoll` -> `rhpoll`, `wake` -> `rwake`, ...)
+    fn remote(&mut self) {
+        let l = self.lines.last_mut().unwrap();
+        if !l.starts_with("hdetach") {
+            l.insert(0, 'r');
+        }
+    }
+
+    fn rhpoll(&mut self, id: usize, w: u64) {
+        self.hpoll(id, w);
+        self.remote();
+    }
+
+    fn rhend(&mut self, op: &str, id: usize) {
+        self.hend(&op[1..], id);
+        self.remote();
+    }
+
+    fn rwake(&mut self, id: usize) {
+        self.wake(id);
+        self.remote();
+    }
+
+    /// blocking remote wake: may run one tick
+    fn rwakeb(&mut self, id: usize) {
+        self.wake(id);
+        let l = self.lines.last_mut().unwrap();
+        *l = format!("rwakeb {id}");
+    }
+
+    fn rwdrop(&mut self, id: usize) {
+        self.wdrop(id);
+        self.remote();
+    }
+
     fn with_handle(&self) -> Vec<usize> {
         (0..self.tasks.len()).filter(|i| self.tasks[*i].handle).collect()
     }
@@ -767,13 +1209,17 @@ struct Prof {
     /// an operation that is (plausibly) invalid: id out of range, consumed handle, no waker, dead executor
     bad: u64,
     max_tasks: usize,
+    /// percentage of handle / waker operations that are done on a helper thread
+    remote: u64,
 }
 
-const PROF_WAKER: Prof = Prof { spawn: 1, tick: 6, hpoll: 2, hdrop: 1, hdetach: 1, hcancel: 1, wake: 8, wdrop: 4, xdrop: 1, stat: 1, bad: 0, max_tasks: 3 };
-const PROF_JOIN: Prof = Prof { spawn: 2, tick: 6, hpoll: 8, hdrop: 1, hdetach: 1, hcancel: 1, wake: 3, wdrop: 1, xdrop: 1, stat: 1, bad: 0, max_tasks: 3 };
-const PROF_PHASE: Prof = Prof { spawn: 2, tick: 5, hpoll: 4, hdrop: 2, hdetach: 2, hcancel: 2, wake: 3, wdrop: 2, xdrop: 1, stat: 1, bad: 1, max_tasks: 3 };
-const PROF_HOT: Prof = Prof { spawn: 4, tick: 14, hpoll: 2, hdrop: 1, hdetach: 1, hcancel: 1, wake: 3, wdrop: 1, xdrop: 0, stat: 1, bad: 0, max_tasks: 6 };
-const PROF_HOSTILE: Prof = Prof { spawn: 3, tick: 4, hpoll: 3, hdrop: 3, hdetach: 2, hcancel: 2, wake: 2, wdrop: 2, xdrop: 2, stat: 1, bad: 10, max_tasks: 4 };
+const PROF_WAKER: Prof = Prof { spawn: 1, tick: 6, hpoll: 2, hdrop: 1, hdetach: 1, hcancel: 1, wake: 8, wdrop: 4, xdrop: 1, stat: 1, bad: 0, max_tasks: 3, remote: 0 };
+const PROF_JOIN: Prof = Prof { spawn: 2, tick: 6, hpoll: 8, hdrop: 1, hdetach: 1, hcancel: 1, wake: 3, wdrop: 1, xdrop: 1, stat: 1, bad: 0, max_tasks: 3, remote: 0 };
+const PROF_PHASE: Prof = Prof { spawn: 2, tick: 5, hpoll: 4, hdrop: 2, hdetach: 2, hcancel: 2, wake: 3, wdrop: 2, xdrop: 1, stat: 1, bad: 1, max_tasks: 3, remote: 0 };
+const PROF_HOT: Prof = Prof { spawn: 4, tick: 14, hpoll: 2, hdrop: 1, hdetach: 1, hcancel: 1, wake: 3, wdrop: 1, xdrop: 0, stat: 1, bad: 0, max_tasks: 6, remote: 0 };
+const PROF_REMOTE: Prof = Prof { spawn: 2, tick: 7, hpoll: 4, hdrop: 2, hdetach: 1, hcancel: 2, wake: 6, wdrop: 2, xdrop: 1, stat: 1, bad: 0, max_tasks: 3, remote: 70 };
+const PROF_RHOSTILE: Prof = Prof { spawn: 3, tick: 4, hpoll: 3, hdrop: 3, hdetach: 1, hcancel: 2, wake: 3, wdrop: 2, xdrop: 2, stat: 1, bad: 8, max_tasks: 4, remote: 80 };
+const PROF_HOSTILE: Prof = Prof { spawn: 3, tick: 4, hpoll: 3, hdrop: 3, hdetach: 2, hcancel: 2, wake: 2, wdrop: 2, xdrop: 2, stat: 1, bad: 10, max_tasks: 4, remote: 0 };
 
 fn bad_op(p: &mut Prog, rng: &mut Rng) {
     let n = p.tasks.len();
@@ -875,7 +1321,24 @@ fn step(p: &mut Prog, rng: &mut Rng, pr: &Prof, script: fn(&mut Rng) -> String) 
             let id = rng.below(p.tasks.len() as u64) as usize;
             p.stat(id)
         }
-        _ => bad_op(p, rng),
+        _ => {
+            bad_op(p, rng);
+            if pr.remote > 0 && rng.below(100) < pr.remote {
+                let l = p.lines.last().unwrap().clone();
+                if ["hpoll", "hdrop", "hcancel", "wake", "wdrop"].iter().any(|o| l.starts_with(o)) {
+                    p.remote();
+                }
+            }
+            return;
+        }
+    }
+    if (2..=7).contains(&op) && op != 4 && pr.remote > 0 && rng.below(100) < pr.remote {
+        if op == 6 && rng.chance(1, 4) {
+            let id: usize = p.lines.last().unwrap()[5..].parse().unwrap();
+            *p.lines.last_mut().unwrap() = format!("rwakeb {id}");
+        } else {
+            p.remote();
+        }
     }
 }
 
@@ -1237,6 +1700,291 @@ fn fam_hostile(rng: &mut Rng) -> Prog {
     p
 }
 
+/// a script with cross-thread wakes inside polls (`W`) and / or kept clones (`c`) for rwake
+fn w_script(rng: &mut Rng) -> String {
+    if rng.chance(1, 2) {
+        return rng
+            .pick(&["cWr", "cWWr", "Wr", "sWr", "cWx", "cW", "cWp", "WWr", "csWr", "cWcr", "cr", "ccr", "cpr", "cWpr", "Wcr", "cWs"])
+            .to_string();
+    }
+    let mut s = String::new();
+    if rng.chance(3, 4) {
+        for _ in 0..*rng.pick(&[0u64, 0, 0, 1]) {
+            s.push(*rng.pick(&['s', 'W']));
+        }
+        s.push('c');
+    }
+    for _ in 0..rng.below(4) {
+        s.push(*rng.pick(&['W', 'W', 'c', 's', 'p']));
+    }
+    match rng.below(5) {
+        0 => {}
+        1 => s.push('x'),
+        _ => s.push('r'),
+    }
+    if s.is_empty() { "W".into() } else { s }
+}
+
+/// handle dropped / cancelled on another thread in every phase of the task, then ticks
+fn fam_remote_drop(rng: &mut Rng) -> Prog {
+    let mut p = Prog::new(*rng.pick(&[1u32, 2, 61, 61]));
+    if rng.chance(1, 3) {
+        p.spawn(&gen_script(rng));
+    }
+    let id = p.tasks.len();
+    let op = *rng.pick(&["rhdrop", "rhdrop", "rhcancel", "rhcancel", "hdrop", "hcancel"]);
+    match rng.below(6) {
+        0 => {
+            // before the first tick (hot, never polled)
+            p.spawn(*rng.pick(&["p", "sp", "cp", "r", "-", "ssr", "cr"]));
+        }
+        1 | 2 => {
+            // pending and cold
+            p.spawn(*rng.pick(&["p", "cp", "c", "pr", "cpr", "cr", "-"]));
+            p.tick();
+            if rng.chance(1, 3) {
+                p.tick();
+            }
+        }
+        3 => {
+            // pending and hot: woke itself, or woken (locally / remotely) through a kept clone
+            if rng.chance(1, 2) {
+                p.spawn(*rng.pick(&["sp", "ssp", "sr", "ssr", "Wp", "sWr"]));
+                p.tick();
+            } else {
+                p.spawn(*rng.pick(&["cp", "cr", "ccr", "cWr"]));
+                p.tick();
+                match rng.below(3) {
+                    0 => p.wake(id),
+                    1 => p.rwake(id),
+                    _ => {
+                        p.rwake(id);
+                        p.rwake(id);
+                    }
+                }
+            }
+        }
+        4 => {
+            // after completion, result not taken
+            p.spawn(*rng.pick(&["r", "x", "sr", "sx", "Wr"]));
+            let mut guard = 0;
+            while p.tasks[id].g == Guess::Running && guard < 4 {
+                p.tick();
+                guard += 1;
+            }
+        }
+        _ => {
+            // after the executor was dropped
+            p.spawn(*rng.pick(&["p", "cp", "r", "sp"]));
+            for _ in 0..rng.below(2) {
+                p.tick();
+            }
+            p.xdrop();
+        }
+    }
+    if rng.chance(1, 4) {
+        let w = p.pick_waker(id, rng);
+        if rng.chance(1, 2) { p.hpoll(id, w) } else { p.rhpoll(id, w) }
+    }
+    if op.starts_with('r') { p.rhend(op, id) } else { p.hend(op, id) }
+    for _ in 0..rng.below(4) {
+        match rng.below(8) {
+            0..=3 => p.tick(),
+            4 => p.rwake(id),
+            5 => p.rhpoll(id, 0),
+            6 => p.rwdrop(id),
+            _ => p.stat(id),
+        }
+    }
+    for _ in 0..rng.below(3) {
+        step(&mut p, rng, &PROF_REMOTE, gen_script);
+    }
+    p
+}
+
+/// wakers used on another thread: rwake / rwakeb of kept clones, `W` wakes inside polls
+fn fam_remote_wake(rng: &mut Rng) -> Prog {
+    let mut p = Prog::new(*rng.pick(&[1u32, 2, 3, 61, 61]));
+    p.spawn(&w_script(rng));
+    if rng.chance(1, 3) {
+        p.spawn(&w_script(rng));
+    }
+    p.tick();
+    if rng.chance(1, 4) {
+        p.tick();
+    }
+    let id = p.with_wakers().first().copied().unwrap_or(0);
+    match rng.below(8) {
+        0 | 1 => {
+            // remote wake BEFORE the tick whose poll contains a `W`: wake, poll with a wake inside, poll again
+            p.rwake(id);
+            p.tick();
+            p.tick();
+            if rng.chance(1, 2) {
+                p.tick();
+            }
+        }
+        2 => {
+            // several remote wakes in a row (coalesced), then local
+            for _ in 0..rng.range(2, 3) {
+                p.rwake(id);
+            }
+            if rng.chance(1, 2) {
+                p.wake(id);
+            }
+            p.tick();
+            p.tick();
+        }
+        3 => {
+            // local wake first, then remote
+            p.wake(id);
+            p.rwake(id);
+            p.tick();
+            p.rwake(id);
+            p.tick();
+        }
+        4 => {
+            // wake / tick until (plausibly) complete, then wake the completed task remotely
+            for _ in 0..rng.range(1, 4) {
+                if rng.chance(2, 3) { p.rwake(id) } else { p.rwakeb(id) }
+                p.tick();
+            }
+            p.rwake(id);
+            p.rwdrop(id);
+        }
+        5 => {
+            // remote wake of a cancelled task
+            p.hend(*rng.pick(&["hdrop", "hcancel"]), id);
+            p.rwake(id);
+            p.tick();
+            p.rwake(id);
+        }
+        6 => {
+            // blocking wakes
+            p.rwakeb(id);
+            if rng.chance(1, 2) {
+                p.rwakeb(id);
+            }
+            p.tick();
+        }
+        _ => {}
+    }
+    for _ in 0..rng.below(5) {
+        step(&mut p, rng, &PROF_REMOTE, w_script);
+    }
+    p
+}
+
+/// handle polled on another thread, mixed with local polls, before and after the completing tick
+fn fam_remote_poll(rng: &mut Rng) -> Prog {
+    let mut p = Prog::new(*rng.pick(&[1u32, 2, 61, 61, 61]));
+    let k = rng.range(1, 2) as usize;
+    for _ in 0..k {
+        p.spawn(&fin_script(rng));
+    }
+    let id = rng.below(k as u64) as usize;
+    let need = p.tasks[id].script.len() as u64;
+    for _ in 0..rng.below(need) {
+        p.tick();
+    }
+    match rng.below(5) {
+        0 => p.rhpoll(id, 0),
+        1 => {
+            p.rhpoll(id, 0);
+            p.rhpoll(id, 0);
+        }
+        2 => {
+            p.hpoll(id, 0);
+            p.rhpoll(id, 1);
+        }
+        3 => {
+            p.rhpoll(id, 1);
+            p.hpoll(id, 1);
+            p.rhpoll(id, 2);
+        }
+        _ => {}
+    }
+    let mut guard = 0;
+    while p.tasks[id].g == Guess::Running && guard < 8 {
+        if p.tasks[id].wakers > 0 && !p.tasks[id].runnable {
+            p.rwake(id);
+        }
+        p.tick();
+        guard += 1;
+    }
+    match rng.below(7) {
+        0 | 1 | 2 => {
+            let w = p.pick_waker(id, rng);
+            p.rhpoll(id, w);
+            if rng.chance(1, 3) {
+                p.rhpoll(id, w);
+            }
+        }
+        3 => p.rhend("rhdrop", id),
+        4 => p.rhend("rhcancel", id),
+        5 => {
+            p.xdrop();
+            p.rhpoll(id, 0);
+        }
+        _ => {}
+    }
+    for _ in 0..rng.below(4) {
+        step(&mut p, rng, &PROF_REMOTE, fin_script);
+    }
+    p
+}
+
+/// sync queue of 1 or 2 slots: refused operations (`full`), blocking wakes through a full queue
+fn fam_small_queue(rng: &mut Rng) -> Prog {
+    let mut p = Prog::new_q(*rng.pick(&[1u32, 2, 61, 61]), *rng.pick(&[1u32, 1, 2, 2, 0]));
+    let k = rng.range(2, 3) as usize;
+    for _ in 0..k {
+        p.spawn(*rng.pick(&["cpr", "cpr", "cr", "ccr", "cWr", "cp", "cWWr", "c"]));
+    }
+    p.tick();
+    if rng.chance(1, 3) {
+        p.tick();
+    }
+    if rng.chance(2, 5) {
+        // fill the queue with admitted remote wakes of distinct tasks, then a blocking wake of another task
+        // has to go through the full queue (driver waker -> tick -> retry)
+        let first = rng.below(k as u64) as usize;
+        p.rwake(first);
+        if rng.chance(1, 3) {
+            p.rwake((first + 1) % k);
+        }
+        p.rwakeb((first + k - 1) % k);
+        p.tick();
+        p.tick();
+    }
+    for _ in 0..rng.range(1, 5) {
+        let id = rng.below(k as u64) as usize;
+        match rng.below(10) {
+            0..=2 => p.rwake(id),
+            3..=5 => p.rwakeb(id),
+            6 | 7 => p.tick(),
+            8 => p.rhend(*rng.pick(&["rhdrop", "rhcancel"]), id),
+            _ => p.wake(id),
+        }
+    }
+    p.tick();
+    if rng.chance(1, 2) {
+        p.tick();
+    }
+    for _ in 0..rng.below(3) {
+        step(&mut p, rng, &PROF_REMOTE, w_script);
+    }
+    p
+}
+
+fn fam_remote_hostile(rng: &mut Rng) -> Prog {
+    let mut p = Prog::new_q(*rng.pick(&[0u32, 1, 2, 61]), *rng.pick(&[0u32, 1, 2, 3, 64]));
+    for _ in 0..rng.range(3, 10) {
+        step(&mut p, rng, &PROF_RHOSTILE, w_script);
+    }
+    p
+}
+
 /// the original unstructured generator (kept as is)
 fn fam_random(rng: &mut Rng, name: String) -> Case {
     let mut lines = vec![format!("new {}", rng.pick(&[1u32, 2, 3, 61]))];
@@ -1361,6 +2109,89 @@ fn enumerate(maxlen: usize, n: u32, scripts: &[&str], prefix: &str, out: &mut Ve
     rec(maxlen, st, &mut vec![], n, scripts, prefix, out);
 }
 
+/// Syntactic state of the cross-thread enumeration.
+#[derive(Clone, Copy)]
+struct EnumR {
+    nsp: usize,
+    /// number of `c` in the script of task i
+    c: [u32; 2],
+    alive: bool,
+    /// handle i not yet certainly consumed
+    h: [bool; 2],
+    /// a tick (explicit, or possibly inside a rwakeb) happened after the spawn of task i
+    tick: [bool; 2],
+    /// number of `rwdrop i` so far
+    wd: [u32; 2],
+}
+
+/// All programs of 1..=maxlen operations over the alphabet {spawn s (s in `scripts`), tick, rwake 0, rwake 1, rwakeb 0,
+/// rwakeb 1, wake 0, rwdrop 0, rhpoll 0 0, hpoll 0 1, rhdrop 0, rhcancel 0, hdrop 1, xdrop}, pruned like `enumerate`
+/// (first a spawn, at most 2 spawns, nothing that is certainly `invalid` by syntax alone; `full` is not pruned).
+fn enumerate_r(maxlen: usize, new: &str, scripts: &[&str], prefix: &str, out: &mut Vec<Case>) {
+    fn rec(left: usize, st: EnumR, ops: &mut Vec<String>, new: &str, scripts: &[&str], prefix: &str, out: &mut Vec<Case>) {
+        if st.nsp > 0 {
+            let mut lines = Vec::with_capacity(ops.len() + 4);
+            lines.push(new.to_string());
+            lines.extend(ops.iter().cloned());
+            for id in 0..st.nsp {
+                lines.push(format!("stat {id}"));
+            }
+            lines.push("woken".into());
+            out.push(Case { name: format!("{prefix}-{}", out.len()), lines });
+        }
+        if left == 0 {
+            return;
+        }
+        let go = |op: String, st2: EnumR, ops: &mut Vec<String>, out: &mut Vec<Case>| {
+            ops.push(op);
+            rec(left - 1, st2, ops, new, scripts, prefix, out);
+            ops.pop();
+        };
+        if st.alive && st.nsp < 2 {
+            for s in scripts {
+                let mut s2 = st;
+                let i = st.nsp;
+                s2.nsp += 1;
+                s2.c[i] = s.chars().filter(|c| *c == 'c').count() as u32;
+                s2.h[i] = true;
+                s2.tick[i] = false;
+                go(format!("spawn {s}"), s2, ops, out);
+            }
+        }
+        if st.nsp == 0 {
+            return;
+        }
+        let ticked = EnumR { tick: [true, st.nsp == 2 || st.tick[1]], ..st };
+        if st.alive {
+            go("tick".into(), ticked, ops, out);
+            go("xdrop".into(), EnumR { alive: false, ..st }, ops, out);
+        }
+        if st.h[0] {
+            go("rhpoll 0 0".into(), st, ops, out);
+            go("hpoll 0 1".into(), st, ops, out);
+            go("rhdrop 0".into(), EnumR { h: [false, st.h[1]], ..st }, ops, out);
+            go("rhcancel 0".into(), EnumR { h: [false, st.h[1]], ..st }, ops, out);
+        }
+        if st.nsp == 2 && st.h[1] {
+            go("hdrop 1".into(), EnumR { h: [st.h[0], false], ..st }, ops, out);
+        }
+        for i in 0..st.nsp {
+            if st.c[i] > st.wd[i] && st.tick[i] {
+                go(format!("rwake {i}"), st, ops, out);
+                // may run a tick (only while the executor is alive)
+                go(format!("rwakeb {i}"), if st.alive { ticked } else { st }, ops, out);
+                if i == 0 {
+                    go("wake 0".into(), st, ops, out);
+                    go("rwdrop 0".into(), EnumR { wd: [st.wd[0] + 1, st.wd[1]], ..st }, ops, out);
+                }
+            }
+        }
+    }
+    let st = EnumR { nsp: 0, c: [0, 0], alive: true, h: [false, false], tick: [false, false], wd: [0, 0] };
+    rec(maxlen, st, &mut vec![], new, scripts, prefix, out);
+}
+
+const SCRIPTS_R: [&str; 4] = ["cWr", "cpr", "p", "Wr"];
 const SCRIPTS_A: [&str; 4] = ["r", "sr", "cx", "p"];
 const SCRIPTS_B: [&str; 4] = ["x", "ssr", "ccr", "cs"];
 
@@ -1376,23 +2207,33 @@ fn generate(tier: &str, rng: &mut Rng) -> Vec<Case> {
         enumerate(5, 1, &SCRIPTS_B, "xe", &mut cases);
         enumerate(5, 2, &SCRIPTS_B, "xf", &mut cases);
         enumerate(5, 3, &SCRIPTS_B, "xg", &mut cases);
+        enumerate_r(6, "new 61", &SCRIPTS_R, "xr", &mut cases);
+        enumerate_r(5, "new 61 1", &SCRIPTS_R, "xs", &mut cases);
+        enumerate_r(5, "new 1 2", &SCRIPTS_R, "xt", &mut cases);
     } else {
         enumerate(4, 1, &SCRIPTS_A, "xa", &mut cases);
         enumerate(3, 61, &SCRIPTS_A, "xb", &mut cases);
+        enumerate_r(3, "new 61", &SCRIPTS_R, "xr", &mut cases);
+        enumerate_r(3, "new 61 1", &SCRIPTS_R, "xs", &mut cases);
     }
-    // 2. generated programs: 25 % unstructured, 10 % hostile, the rest structure-aware families
-    let n = if thorough { 40_000 } else { 2_500 };
+    // 2. generated programs
+    let n = if thorough { 40_000 } else { 2_100 };
     for i in 0..n {
         let (fam, prog) = match rng.below(100) {
-            0..=24 => {
+            0..=17 => {
                 cases.push(fam_random(rng, format!("rnd{i}")));
                 continue;
             }
-            25..=34 => ("hostile", fam_hostile(rng)),
-            35..=51 => ("waker", fam_waker(rng)),
-            52..=68 => ("join", fam_join(rng)),
-            69..=85 => ("phase", fam_phase(rng)),
-            _ => ("hot", fam_hot(rng)),
+            18..=24 => ("hostile", fam_hostile(rng)),
+            25..=35 => ("waker", fam_waker(rng)),
+            36..=46 => ("join", fam_join(rng)),
+            47..=57 => ("phase", fam_phase(rng)),
+            58..=66 => ("hot", fam_hot(rng)),
+            67..=75 => ("rdrop", fam_remote_drop(rng)),
+            76..=85 => ("rwake", fam_remote_wake(rng)),
+            86..=91 => ("rpoll", fam_remote_poll(rng)),
+            92..=96 => ("smallq", fam_small_queue(rng)),
+            _ => ("rhostile", fam_remote_hostile(rng)),
         };
         cases.push(prog.finish(format!("{fam}{i}")));
     }
@@ -1403,6 +2244,6 @@ fn main() {
     run_harness(
         generate,
         run_case,
-        "cases: (a) exhaustive: every program of 1..L operations over {spawn s, tick, hpoll 0 0, hpoll 0 1, hpoll 1 0, hdrop 0, hdrop 1, hdetach 0, hcancel 0, wake 0, wdrop 0, xdrop} that starts with a spawn, spawns at most 2 tasks and has no operation that is invalid by syntax alone (unknown id, handle already consumed, dead executor, no waker clone possible); quick: scripts {r,sr,cx,p} with L=4 for max_interval 1 and L=3 for 61; thorough: scripts {r,sr,cx,p} with L=7 for max_interval 61 and L=6 for 1 and 2; scripts {x,ssr,ccr,cs} with L=6 for max_interval 61 and L=5 for 1, 2, 3. (b) generated (quick 2500, thorough 40000), one executor with max_interval in {1,2,3,61} each: 25% unstructured random programs of spawn(script)/tick/handle poll,drop,detach,cancel/waker wake,drop/executor drop; 10% hostile (ids out of range, consumed handles, wake/wdrop without clone, operations on a dropped executor, max_interval in {0,1,2,4,5,61,100}); 17% waker (scripts s*c..: tick, then wake/wdrop while pending, after completion, as last holder, after hdrop/hcancel, after xdrop); 17% join (scripts s*(r|x): handle parked with one/two/the same waker before the completing tick, then poll/drop/detach/cancel/xdrop and polls of consumed handles); 17% phase (hdrop/hdetach/hcancel/xdrop before the first tick, while pending, after completion with the result untaken, after xdrop, then handle and waker operations); 14% hot (max_interval 1..3, 2-6 mostly self-waking tasks, many ticks). The generator keeps a syntactic shadow (scripts, ticks, consumed handles) only to bias choices; it never judges outputs. Every case ends with stat of every task and the wake log; after the last line the harness keeps ticking until the executor runs dry (starvation monitor) and then drops everything (drop-count monitors). distinct by text; non-trivial = some spawn succeeded and at least 4 lines",
+        "cases: programs of local operations (spawn script, tick, hpoll, hdrop, hdetach, hcancel, wake, wdrop, xdrop, stat, woken) and sequential cross-thread operations (rhpoll, rhdrop, rhcancel, rwake, rwakeb, rwdrop run on a helper thread that the main thread waits for; script letter W = a clone of the task waker is woken on a helper thread inside the poll; `new n q` sets sync_queue_size q; the executor always has a driver waker that, when armed by rwakeb, makes the main thread tick once). (a) exhaustive, local: every program of 1..L operations over {spawn s, tick, hpoll 0 0, hpoll 0 1, hpoll 1 0, hdrop 0, hdrop 1, hdetach 0, hcancel 0, wake 0, wdrop 0, xdrop} that starts with a spawn, spawns at most 2 tasks and has no operation that is invalid by syntax alone (unknown id, handle already consumed, dead executor, no waker clone possible); quick: scripts {r,sr,cx,p}, L=4 for max_interval 1, L=3 for 61; thorough: scripts {r,sr,cx,p}, L=7 for max_interval 61, L=6 for 1 and 2; scripts {x,ssr,ccr,cs}, L=6 for 61, L=5 for 1, 2, 3. (b) exhaustive, cross-thread, same pruning: alphabet {spawn s, tick, rwake 0, rwake 1, rwakeb 0, rwakeb 1, wake 0, rwdrop 0, rhpoll 0 0, hpoll 0 1, rhdrop 0, rhcancel 0, hdrop 1, xdrop}, scripts {cWr,cpr,p,Wr}; quick: L=3 for (max_interval 61, queue 64) and (61, 1); thorough: L=6 for (61, 64), L=5 for (61, 1) and (1, 2). (c) generated (quick 2100, thorough 40000): 18% unstructured random local programs; 7% hostile (ids out of range, consumed handles, wake/wdrop without clone, operations on a dropped executor, max_interval in {0,1,2,4,5,61,100}); 11% waker (scripts s*c..: wake/wdrop while pending, after completion, as last holder, after hdrop/hcancel, after xdrop); 11% join (handle parked with one/two/the same waker before the completing tick, then poll/drop/detach/cancel/xdrop); 11% phase (hdrop/hdetach/hcancel/xdrop before the first tick, while pending, after completion, after xdrop); 9% hot (max_interval 1..3, 2-6 mostly self-waking tasks, many ticks); 9% rdrop (handle dropped/cancelled on another thread before the first tick, while pending cold, while hot, after completion, after xdrop, then ticks); 10% rwake (scripts with c and W: rwake before the tick whose poll contains a W, several rwake in a row, rwake mixed with wake, rwake of completed/cancelled tasks, rwakeb, small max_interval); 6% rpoll (rhpoll mixed with hpoll, same/other waker, before and after the completing tick); 5% smallq (sync queue of 1 or 2 slots: rwake refused as full, rwakeb through a full queue, mixes); 3% rhostile (cross-thread operations with bad ids, consumed handles, dropped executor, queue sizes 0..3). The generator keeps a syntactic shadow (scripts, ticks, consumed handles) only to bias choices; it never judges outputs. Every case ends with stat of every task and the wake log; after the last line the harness keeps ticking until the executor runs dry and no remotely woken task is owed a poll (starvation / lost-wake / reaping monitors) and then drops everything (drop-count monitors). distinct by text; non-trivial = some spawn succeeded and at least 4 lines",
     );
 }
